@@ -116,7 +116,8 @@ func (j *Join) Exec() ([]any, error) {
 		{
 			return j.StraightJoin()
 		}
-	case j.joinType.IsHashJoin() || hashJoinAnalyze(j.leftIdent, j.rightIdent, j.joinExpr):
+	// the hash path pairs rows whose key columns are equal: it answers ON only when ON is a conjunction of equalities
+	case hashJoinAnalyze(j.leftIdent, j.rightIdent, j.joinExpr):
 		{
 			return j.HashJoin()
 		}
